@@ -812,22 +812,15 @@ def check_video_unit(u, e):
 
 
 def ts_clock_check(pairs, what):
-    """pairs: [(90 * published time, value33, first published time of the track, published time)]: one constant per
-    track -> (error or None, known-finding flag).  Frames stamped below the first frame of their track (the class of
-    F-23) are judged separately: the constant is taken from the frames that are not."""
+    """pairs: [(90 * published time, value33, first published time of the track, published time)]: ONE constant per
+    track on the 33-bit clock, also for frames stamped below the first frame of their track (clock restart, 32-bit
+    wrap of the RTMP time stamp; F-23, fixed) -> (error or None, False)"""
     base = None
-    bad = None
     for want, got, first_ts, ts in pairs:
-        below = first_ts is not None and ts < first_ts
-        if below:
-            continue
         if base is None:
             base = (got - want) % M33
         elif (got - want) % M33 != base:
             return ("%s clock: %d for published time %d (constant of the track %d)" % (what, got, ts, base), False)
-    for want, got, first_ts, ts in pairs:
-        if first_ts is not None and ts < first_ts and base is not None and (got - want) % M33 != base:
-            return ("%s clock: %d for published time %d below the track's first time %d (constant of the track %d)" % (what, got, ts, first_ts, base), True)
     return (None, False)
 
 
